@@ -634,15 +634,21 @@ def r13(ctx, facts):
     universe = {n for n in ct_names.values() if n != "Native"} | {"Native:" + n for n in nt_names.values()}
     got = {0: set(), 1: set()}
     n_ret = 0
-    # the return place and the locals that are copied into it (a helper's result after inlining)
-    targets, grew = {0}, True
+    # the return place and the locals that are copied into it (a helper's result after inlining), possibly negated (`!matches!(..)`)
+    targets, grew = {0: False}, True
     while grew:
         grew = False
         for bb in b.live_blocks:
             for st in b.stmts(bb):
-                if st[0] == "A" and st[1][0] in targets and not st[1][1] and st[2][0] == "use" and st[2][1][0] in ("c", "m") and not st[2][1][1][1] \
-                        and st[2][1][1][0] not in targets:
-                    targets.add(st[2][1][1][0])
+                if not (st[0] == "A" and st[1][0] in targets and not st[1][1]):
+                    continue
+                src, inv = None, False
+                if st[2][0] == "use" and st[2][1][0] in ("c", "m") and not st[2][1][1][1]:
+                    src = st[2][1][1][0]
+                elif st[2][0] == "un" and st[2][1] == "Not" and st[2][2][0] in ("c", "m") and not st[2][2][1][1]:
+                    src, inv = st[2][2][1][0], True
+                if src is not None and src not in targets:
+                    targets[src] = targets[st[1][0]] ^ inv
                     grew = True
     for bb, c in b.calls():
         if bb in b.live_blocks and c.dest[0] in targets:
@@ -653,9 +659,11 @@ def r13(ctx, facts):
                 continue
             if st[2][0] == "use" and st[2][1][0] in ("c", "m"):
                 continue
+            if st[2][0] == "un" and st[2][1] == "Not":
+                continue
             if not (st[2][0] == "use" and st[2][1][0] == "k" and st[2][1][1] == "int"):
                 raise AnchorLost("supports_special_empty_value: a result that is not a constant per column type (%s)" % (st[2][0],))
-            val = int(st[2][1][3])
+            val = int(st[2][1][3]) ^ (1 if targets[st[1][0]] else 0)
             n_ret += 1
             for stt in dj.states_before_stmt(bb, j):
                 ct = None
